@@ -9,7 +9,7 @@ CLAIMED = {
          "formula; the model is tied to core.py/general.py by bit-exact integer correspondence on every run, and the "
          "implementation is cross-checked against an independent triple-loop oracle.",
     note="Trusted: Coq kernel, hand-written model (Model/QSMCore.v, Model/General.v) tied only by correspondence on generated "
-         "integer cases, the harness, JAX as executor. Rounding is outside the theorems. GeneralQSM theorem pending (correspondence+oracle only).",
+         "integer cases, the harness, JAX as executor. Rounding is outside the theorems. Rectangular form included (gmatmul_den).",
     technique="Coq proof (scan invariant by induction over n) + exact model/implementation correspondence",
     ref="DESIGN.md section 6, C04"),
  "C05": dict(
@@ -35,6 +35,23 @@ CLAIMED = {
     note="Trusted: Coq kernel, model, harness, numpy oracle. 'pivots positive <=> A SPD' and rounding are outside the theorem so far.",
     technique="Coq proof over rcfType (invariant f_k = sum P w w^T P^T) + tolerance correspondence",
     ref="DESIGN.md section 6, C07"),
+ "C08": dict(
+    text="Machine-checked theorems, generic in the kernel (any state dimension, h, Pinf, A and strict order satisfying the transition laws), "
+         "any field, any coordinate type, all n: the symmetric form on sorted inputs (ties allowed), the rectangular form for sorted X2 and "
+         "arbitrary X1 (before/between/equal/after), both fast matmul branches, evaluate symmetric, diagonal = evaluate x x. The model is tied to "
+         "kernels/quasisep.py by exact correspondence on a synthetic structured-coordinate integer kernel over every weak ordering of the merged "
+         "points and by tolerance correspondence on 13 built-in kernels/expressions with tables from the implementation's own methods.",
+    note="Trusted: Coq kernel, model Model/SSKernel.v + Model/General.v, harness, JAX. The laws themselves are C18's subject. Rounding outside the theorems.",
+    technique="Coq proof (chain of transition products by induction, prefix-count lemma for searchsorted) + exact/tolerance correspondence",
+    ref="DESIGN.md section 6, C08"),
+ "C11": dict(
+    text="Machine-checked theorems (any field, every N and bandwidth J, all values incl. ignored slots): Banded.to_qsm denotes the documented banded "
+         "matrix, noise @ y is that matrix times y, ignored slots never matter, diagonal and symmetry; Diagonal/Dense views. Exhaustive exact-integer "
+         "correspondence of the model (incl. the scatter-add of + with accumulate-on-duplicate semantics) over all (N,J) up to the tier bound, and "
+         "GaussianProcess covariance/variance with both solvers against K + B.",
+    note="Trusted: Coq kernel, model Model/Noise.v, harness, numpy loop oracle. The `+` (scatter) view of Banded/Diagonal is covered by exhaustive correspondence, not yet by a theorem.",
+    technique="Coq proof (shift-matrix powers) + exhaustive exact correspondence over (N,J)",
+    ref="DESIGN.md section 6, C11"),
 }
 NOT_YET = {}
 
